@@ -13,3 +13,11 @@ open SSVerif.Hist
 #print axioms decidePrefix_sound
 #print axioms SSVerif.Nfa.decideAccepts_sound
 #print axioms SSVerif.Nfa.checkPath_sound
+#print axioms C01_reachable_result_in_loaded_grammar
+#print axioms SSVerif.Search.C01_word_exit_meets_EntryOK
+#print axioms SSVerif.Search.C01_step_preserves_WFHist
+#print axioms SSVerif.Search.C01_start_establishes_SearchInv
+#print axioms SSVerif.Search.C01_reachable_WFHist
+#print axioms SSVerif.Search.C01_finish_clears_search
+#print axioms SSVerif.Search.C01_hmm_eval_3st_refines
+#print axioms SSVerif.Search.C01_search_checkers_sound
